@@ -1,0 +1,219 @@
+//! Verification hooks, compiled only with the `verif-hooks` feature.
+//!
+//! With the feature on, [`RecordMaybeUninit`](crate::data::RecordMaybeUninit) carries a per-byte
+//! shadow of its buffer (alignment 1, laid out after the data, so the data keeps the address and
+//! the alignment it has in production) that travels with every bitwise copy the generated code
+//! makes. `read` / `write` / `get` / `get_mut` call the functions below before the real access.
+//! Nothing here panics: violations are recorded in a thread-local sink ([`take_events`]); only an
+//! out-of-bounds access aborts the process (after printing the event), because letting it proceed
+//! would corrupt memory.
+
+use std::cell::{Cell, RefCell};
+
+const UNOWNED: u8 = 0;
+const MOVED_OUT: u8 = 1;
+const FIRST_TAG: u8 = 2;
+const START: u8 = 0x80;
+
+thread_local! {
+    static EVENTS: RefCell<Vec<String>> = const { RefCell::new(Vec::new()) };
+    static TAGS: RefCell<Vec<&'static str>> = const { RefCell::new(Vec::new()) };
+    static ACCESSES: Cell<u64> = const { Cell::new(0) };
+}
+
+/// Takes the violations recorded on this thread since the last call.
+pub fn take_events() -> Vec<String> {
+    EVENTS.with(|e| std::mem::take(&mut *e.borrow_mut()))
+}
+
+/// Number of hooked accesses made on this thread.
+pub fn accesses() -> u64 {
+    ACCESSES.with(|a| a.get())
+}
+
+fn event(msg: String) {
+    let _ = EVENTS.try_with(|e| e.borrow_mut().push(msg));
+}
+
+fn tag_of<T>() -> u8 {
+    let name = std::any::type_name::<T>();
+    TAGS.with(|t| {
+        let mut t = t.borrow_mut();
+        let idx = match t.iter().position(|n| *n == name) {
+            Some(i) => i,
+            None => {
+                t.push(name);
+                t.len() - 1
+            }
+        };
+        assert!(idx < (START - FIRST_TAG) as usize, "too many droppable types");
+        FIRST_TAG + idx as u8
+    })
+}
+
+fn tag_name(state: u8) -> String {
+    match state & !START {
+        UNOWNED => "nothing".to_owned(),
+        MOVED_OUT => "a moved-out value".to_owned(),
+        tag => TAGS.with(|t| {
+            t.borrow()
+                .get((tag - FIRST_TAG) as usize)
+                .map(|n| format!("a live {}", n))
+                .unwrap_or_else(|| "?".to_owned())
+        }),
+    }
+}
+
+/// Per-byte ownership state of a record buffer.
+pub struct Shadow<const CAP: usize> {
+    state: [Cell<u8>; CAP],
+}
+
+impl<const CAP: usize> Shadow<CAP> {
+    pub fn new() -> Self {
+        Self {
+            state: [const { Cell::new(UNOWNED) }; CAP],
+        }
+    }
+
+    fn bounds<T>(&self, op: &str, offset: usize) {
+        ACCESSES.with(|a| a.set(a.get() + 1));
+        let size = std::mem::size_of::<T>();
+        if offset.checked_add(size).map_or(true, |end| end > CAP) {
+            eprintln!(
+                "VERIF-HOOK-FATAL: out of bounds: {}::<{}> at offset {} size {} in a record of capacity {}",
+                op,
+                std::any::type_name::<T>(),
+                offset,
+                size,
+                CAP
+            );
+            std::process::abort();
+        }
+    }
+
+    fn aligned<T>(&self, op: &str, base: usize, offset: usize) {
+        let align = std::mem::align_of::<T>();
+        if (base + offset) % align != 0 {
+            event(format!(
+                "misaligned: {}::<{}> at offset {} of a buffer at address {:#x} (address % {} = {})",
+                op,
+                std::any::type_name::<T>(),
+                offset,
+                base,
+                align,
+                (base + offset) % align
+            ));
+        }
+    }
+
+    /// Checks that a live `T` written at exactly `offset` is there.
+    fn owned<T>(&self, op: &str, offset: usize) -> bool {
+        let size = std::mem::size_of::<T>();
+        if !std::mem::needs_drop::<T>() {
+            // plain data: only constrained not to alias a live droppable value
+            for i in offset..offset + size {
+                let s = self.state[i].get();
+                if s & !START >= FIRST_TAG {
+                    event(format!(
+                        "{}::<{}> at offset {} touches byte {} which holds {}",
+                        op,
+                        std::any::type_name::<T>(),
+                        offset,
+                        i,
+                        tag_name(s)
+                    ));
+                    return false;
+                }
+            }
+            return true;
+        }
+        let tag = tag_of::<T>();
+        for i in offset..offset + size {
+            let want = if i == offset { tag | START } else { tag };
+            let s = self.state[i].get();
+            if s != want {
+                event(format!(
+                    "{}::<{}> at offset {}: byte {} holds {}{}, not a live {} stored at that offset",
+                    op,
+                    std::any::type_name::<T>(),
+                    offset,
+                    i,
+                    tag_name(s),
+                    if s & START != 0 && i != offset { " (start of another value)" } else { "" },
+                    std::any::type_name::<T>()
+                ));
+                return false;
+            }
+        }
+        true
+    }
+
+    pub fn on_get<T>(&self, op: &str, base: usize, offset: usize) {
+        self.bounds::<T>(op, offset);
+        self.aligned::<T>(op, base, offset);
+        self.owned::<T>(op, offset);
+    }
+
+    pub fn on_read<T>(&self, base: usize, offset: usize) {
+        self.bounds::<T>("read", offset);
+        self.aligned::<T>("read", base, offset);
+        self.owned::<T>("read", offset);
+        if std::mem::needs_drop::<T>() {
+            for i in offset..offset + std::mem::size_of::<T>() {
+                self.state[i].set(MOVED_OUT);
+            }
+        }
+    }
+
+    pub fn on_write<T>(&self, base: usize, offset: usize, requires_aligned: bool) {
+        self.bounds::<T>("write", offset);
+        if requires_aligned {
+            self.aligned::<T>("write", base, offset);
+        }
+        let size = std::mem::size_of::<T>();
+        for i in offset..offset + size {
+            let s = self.state[i].get();
+            if s & !START >= FIRST_TAG {
+                event(format!(
+                    "write::<{}> at offset {} lands on byte {} which still holds {}",
+                    std::any::type_name::<T>(),
+                    offset,
+                    i,
+                    tag_name(s)
+                ));
+                break;
+            }
+        }
+        if std::mem::needs_drop::<T>() {
+            let tag = tag_of::<T>();
+            for i in offset..offset + size {
+                self.state[i].set(if i == offset { tag | START } else { tag });
+            }
+        } else {
+            for i in offset..offset + size {
+                self.state[i].set(UNOWNED);
+            }
+        }
+    }
+
+    /// The buffer is going away: nothing droppable may still be stored in it.
+    pub fn on_drop(&self) {
+        for i in 0..CAP {
+            let s = self.state[i].get();
+            if s & !START >= FIRST_TAG && s & START != 0 {
+                event(format!(
+                    "record buffer dropped while offset {} still holds {}",
+                    i,
+                    tag_name(s)
+                ));
+            }
+        }
+    }
+}
+
+impl<const CAP: usize> Default for Shadow<CAP> {
+    fn default() -> Self {
+        Self::new()
+    }
+}
